@@ -378,8 +378,11 @@ def for_in(
         sequences.
     """
 
-    mapped: Iterable[Observable[_T2]] = map(mapper, values)
-    return concat_with_iterable(mapped)
+    def factory(_: abc.SchedulerBase) -> Observable[_T2]:
+        mapped: Iterable[Observable[_T2]] = map(mapper, values)
+        return concat_with_iterable(mapped)
+
+    return defer(factory)
 
 
 @overload
